@@ -580,7 +580,7 @@ func genC15(g *Gen) {
 	results := make([][]libLine, len(inputs))
 	parallelMap(len(inputs), cliWorkers(), func(i int) { results[i] = libRun(i%libSlots, inputs[i]) })
 	// calc
-	calcAlpha := []string{"1", "0", "2", "-3", "+", "-", "*", "/", "^", " ", "0x", "08", "a"}
+	calcAlpha := []string{"1", "0", "2", "-3", "+", "-", "*", "/", "^", " ", "0x", "08", "a", "(", ")"}
 	var calcIn []string
 	var crec func(prefix string, depth int)
 	crec = func(prefix string, depth int) {
